@@ -15,6 +15,13 @@ cd /verif/engines/walmc
 export CARGO_NET_OFFLINE=true
 export RUSTFLAGS="--cfg walrus_verif"
 export CARGO_TARGET_DIR=/verif/target/$cfg
+if [ "$cfg" = "asan-small" ]; then
+  export WALRUS_VERIF_BLOCK_SIZE=2048 WALRUS_VERIF_BLOCKS_PER_FILE=4 WALRUS_VERIF_MAX_ALLOC=8192 WALRUS_VERIF_MAX_BATCH_BYTES=1048576
+  export RUSTFLAGS="--cfg walrus_verif -Zsanitizer=address"
+  export ASAN_OPTIONS=detect_leaks=0
+  cargo +nightly build --offline --release --target x86_64-unknown-linux-gnu 2>&1
+  exit $?
+fi
 case "$cfg" in
   *-small)
     export WALRUS_VERIF_BLOCK_SIZE=2048 WALRUS_VERIF_BLOCKS_PER_FILE=4 WALRUS_VERIF_MAX_ALLOC=8192 WALRUS_VERIF_MAX_BATCH_BYTES=1048576 ;;
